@@ -1,9 +1,12 @@
 #!/bin/sh
-# scripts/seed_batch.sh C05 C06 ... : confirm, file and evaluate the two seeds of each finished sub-agent, then drop its worktree
+# scripts/seed_batch.sh C05 C06 ...      : round 1 (worktree /tmp/seed/<id>, seeds <id>A <id>B)
+# ROUND=2 scripts/seed_batch.sh C05 ...  : round 2 (worktree /tmp/seed/R2<id>, seeds <id>C <id>D)
+# confirm, file and evaluate the two seeds of each finished sub-agent, then drop its worktree
 for id in "$@"; do
-  python3 /verif/scripts/seed_intake.py /tmp/seed/$id $id 2>&1 | tail -2 | cut -c1-330
-  for L in A B; do
+  if [ "$ROUND" = 2 ]; then wt=/tmp/seed/R2$id; spec="A=C B=D"; names="C D"; else wt=/tmp/seed/$id; spec="A B"; names="A B"; fi
+  python3 /verif/scripts/seed_intake.py $wt $id $spec 2>&1 | tail -2 | cut -c1-330
+  for L in $names; do
     [ -d /verif/seeded/$id$L ] && python3 /verif/scripts/seed_eval.py $id$L 2>&1 | tail -3
   done
-  git -C /repo worktree remove --force /tmp/seed/$id; rm -rf /tmp/seed/$id
+  git -C /repo worktree remove --force $wt; rm -rf $wt
 done
